@@ -59,7 +59,8 @@ CONSTANTS EmitOn,      \* build JSON labels
           MaxReqs,     \* requests per generated behaviour
           EthLegacyAware, \* TRUE: the Ethereum gate reads both keys like InitIPWhitelist (repaired code)
           StreamGated, \* TRUE: gRPC streaming methods pass through the same gate as unary ones
-          GLock        \* TRUE: gRPC lists derived from the JSON-RPC lists (exhaustive runs)
+          GLock,       \* TRUE: gRPC lists derived from the JSON-RPC lists (exhaustive runs)
+          Lvl          \* row export level: 1 quick, 2 thorough
 
 Methods  == {"Ping", "Pong", "Version", "CloseQueue"}   \* unary probe / built-in methods
 GMethods == Methods \cup {"Watch"}                        \* + a server-streaming gRPC method
@@ -81,9 +82,11 @@ EShapes == {"post", "batch", "gz", "xff", "ws"}
 VARIABLES ipmap, jwl, jbl, gwl, gbl,   \* the process-global maps (sets of keys)
           cur,                          \* configuration of the last InitCfg (rpcCfg pointer; also read by the eth server)
           applied,                      \* set of configurations applied in this process
-          ncfg, nreq, act
-vars == <<ipmap, jwl, jbl, gwl, gbl, cur, applied, ncfg, nreq, act>>
-view == <<ipmap, jwl, jbl, gwl, gbl, cur, applied, ncfg, nreq>>
+          ncfg, nreq, act,
+          pend                          \* exhaustive mode only: the IP part of the next configuration (two-stage choice,
+                                        \* so that TLC's workers share the enumeration)
+vars == <<ipmap, jwl, jbl, gwl, gbl, cur, applied, ncfg, nreq, act, pend>>
+view == <<ipmap, jwl, jbl, gwl, gbl, cur, applied, ncfg, nreq, pend>>
 
 NoCfg == [wn |-> {}, wo |-> {}, jw |-> {}, jb |-> {}, gw |-> {}, gb |-> {}, au |-> "none"]
 
@@ -162,21 +165,21 @@ RetG(a)    == [m \in GMethods |-> V(MayRun("grpc", a, m, "none", applied))]
 
 ReqJ(a, m, d, p, sh) ==
   /\ cur # NoCfg
-  /\ UNCHANGED <<ipmap, jwl, jbl, gwl, gbl, cur, applied, ncfg>>
+  /\ UNCHANGED <<ipmap, jwl, jbl, gwl, gbl, cur, applied, ncfg, pend>>
   /\ nreq' = nreq + 1
   /\ Emit([op |-> "Req", ep |-> "jrpc", a |-> a, m |-> m, d |-> d, p |-> p, sh |-> sh,
            mx |-> B3(sh \in JExact /\ p # "goodalt", MechJ(a, m, p)),
            ret |-> RetJ(a, p)])
 ReqG(a, m, sh) ==
   /\ cur # NoCfg
-  /\ UNCHANGED <<ipmap, jwl, jbl, gwl, gbl, cur, applied, ncfg>>
+  /\ UNCHANGED <<ipmap, jwl, jbl, gwl, gbl, cur, applied, ncfg, pend>>
   /\ nreq' = nreq + 1
   /\ Emit([op |-> "Req", ep |-> "grpc", a |-> a, m |-> m, sh |-> sh,
            mx |-> B3(sh \in GExact, MechG(a, m)),
            ret |-> RetG(a)])
 ReqE(a, sh) ==
   /\ cur # NoCfg
-  /\ UNCHANGED <<ipmap, jwl, jbl, gwl, gbl, cur, applied, ncfg>>
+  /\ UNCHANGED <<ipmap, jwl, jbl, gwl, gbl, cur, applied, ncfg, pend>>
   /\ nreq' = nreq + 1
   /\ LET strict == ncfg = 1 /\ IPConf(cur) # {} IN
      Emit([op |-> "Req", ep |-> "eth", a |-> a, sh |-> sh, vj |-> ViaJ, vg |-> ViaG,
@@ -184,6 +187,15 @@ ReqE(a, sh) ==
            ret |-> [ran |-> V(EthMay(a, applied)),
                     sameJ |-> IF strict /\ ViaJ # "" THEN "yes" ELSE "*",
                     sameG |-> IF strict /\ ViaG # "" THEN "yes" ELSE "*"]])
+
+\* a process restart: every global is back to its initial value (the harness either starts a new
+\* child process or, for speed, calls the reset hook of package rpc - both legs are run)
+Restart ==
+  /\ ncfg > 0
+  /\ ipmap' = {} /\ jwl' = {} /\ jbl' = {} /\ gwl' = {} /\ gbl' = {}
+  /\ cur' = NoCfg /\ applied' = {} /\ ncfg' = 0
+  /\ UNCHANGED <<nreq, pend>>
+  /\ Emit([op |-> "Restart", ret |-> "ok"])
 
 CfgStep(c) ==
   /\ ncfg < MaxCfgs
@@ -197,36 +209,68 @@ CfgStep(c) ==
 ShiftM(x) == CASE x = "Ping" -> "Pong" [] x = "Pong" -> "Version" [] x = "Version" -> "Watch"
                [] x = "Watch" -> "CloseQueue" [] x = "CloseQueue" -> "Ping" [] OTHER -> x
 Shift(s) == {ShiftM(x) : x \in s}
-CfgU == IF GLock
-        THEN {[wn |-> r.wn, wo |-> r.wo, jw |-> r.jw, jb |-> r.jb, gw |-> Shift(r.jw), gb |-> Shift(r.jb), au |-> r.au] :
-                 r \in [wn : IPSets, wo : IPSets, jw : FnW, jb : FnB, au : AuthModes]}
-        ELSE [wn : IPSets, wo : IPSets, jw : FnW, jb : FnB, gw : FnW, gb : FnB, au : AuthModes]
+CfgU(wn, wo) ==
+        IF GLock
+        THEN {[wn |-> wn, wo |-> wo, jw |-> r.jw, jb |-> r.jb, gw |-> Shift(r.jw), gb |-> Shift(r.jb), au |-> r.au] :
+                 r \in [jw : FnW, jb : FnB, au : AuthModes]}
+        ELSE [wn : {wn}, wo : {wo}, jw : FnW, jb : FnB, gw : FnW, gb : FnB, au : AuthModes]
 RandCfg == [wn |-> RandomElement(IPSets), wo |-> RandomElement(IPSets), jw |-> RandomElement(FnW),
             jb |-> RandomElement(FnB), gw |-> RandomElement(FnW), gb |-> RandomElement(FnB),
             au |-> RandomElement(AuthModes)]
 
 Init == /\ ipmap = {} /\ jwl = {} /\ jbl = {} /\ gwl = {} /\ gbl = {}
-        /\ cur = NoCfg /\ applied = {} /\ ncfg = 0 /\ nreq = 0
+        /\ cur = NoCfg /\ applied = {} /\ ncfg = 0 /\ nreq = 0 /\ pend = <<>>
         /\ act = IF EmitOn THEN ToJson([op |-> "Init"]) ELSE ""
 
 \* exhaustive over configurations (requests are quantified inside the invariants)
-NextMC == \E c \in CfgU : CfgStep(c)
+NextMC == \/ /\ pend = <<>> /\ ncfg < MaxCfgs
+             /\ \E wn \in IPSets, wo \in IPSets : pend' = <<wn, wo>>
+             /\ UNCHANGED <<ipmap, jwl, jbl, gwl, gbl, cur, applied, ncfg, nreq, act>>
+          \/ /\ pend # <<>>
+             /\ \E c \in CfgU(pend[1], pend[2]) : CfgStep(c)
+             /\ pend' = <<>>
 
 \* random generation: one behaviour = one process
 RandReq(i) ==
   LET a == RandomElement(Addrs) IN
-  \/ /\ i % 4 \in {0, 1}
+  \/ /\ i \in {0, 1}
      /\ LET m == RandomElement(Methods)
             d == RandomElement(Methods \ {m}) IN
-        ReqJ(a, m, d, RandomElement(Creds), IF i % 8 = 0 THEN "exact" ELSE RandomElement(JShapes))
-  \/ /\ i % 4 = 2
-     /\ ReqG(a, RandomElement(GMethods), RandomElement(GShapes))
-  \/ /\ i % 4 = 3
+        ReqJ(a, m, d, RandomElement(Creds), IF i = 0 THEN RandomElement({"exact", "exact", "keycase", "extra"}) ELSE RandomElement(JShapes))
+  \/ /\ i = 2
+     /\ ReqG(a, RandomElement(GMethods), RandomElement(GShapes \cup {"plain"}))
+  \/ /\ i = 3
      /\ ReqE(a, RandomElement(EShapes))
-NextSim == \/ /\ (ncfg = 0 \/ nreq >= 4 * ncfg) /\ CfgStep(RandCfg)
-           \/ /\ nreq < MaxReqs /\ \E i \in 0..11 : RandReq(i)
+NextSim == /\ pend' = pend
+           /\ \/ /\ (ncfg = 0 \/ nreq >= 4 * ncfg) /\ CfgStep(RandCfg)
+              \/ /\ ncfg > 0 /\ nreq < MaxReqs /\ \E i \in 0..3 : RandReq(i)
+              \/ /\ ncfg >= 2 /\ nreq < MaxReqs - 5 /\ Restart
 
-Next == IF Mode = "mc" THEN NextMC ELSE NextSim
+\* row export ("all"): every configuration of the universe, then ONE request row.  Rows enumerated:
+\*   JSON-RPC  every address x method x credentials class with the exact shape (quick: bad / missing
+\*             credentials from the core addresses only), and
+\*             core addresses x every other shape x two target methods x {good, none} credentials;
+\*   gRPC      every address x method (plain), core addresses x method x every other shape;
+\*   Ethereum  every address x every shape.
+\* (Lvl = 1, quick tier: the same scheme with fewer core addresses / targets / credentials classes)
+AddrCore == IF Lvl = 1 THEN {"A", "Am", "U4"} ELSE {"lo4", "A", "Am", "An", "U4", "U6"}
+CredsX == IF Lvl = 1 THEN {"none", "good", "badpass"} ELSE Creds
+TargX == IF Lvl = 1 THEN {"Ping"} ELSE {"Ping", "Version"}
+CredsS == IF Lvl = 1 THEN {"good"} ELSE {"good", "none"}
+GTargX == IF Lvl = 1 THEN {"Ping", "Watch"} ELSE GMethods
+NextM(m) == CASE m = "Ping" -> "Pong" [] m = "Pong" -> "Version" [] m = "Version" -> "CloseQueue" [] OTHER -> "Ping"
+NextAll == \/ /\ ncfg = 0 /\ NextMC
+           \/ /\ ncfg = 1 /\ nreq = 0 /\ pend = <<>>
+              /\ \/ \E a \in Addrs, m \in Methods, p \in CredsX :
+                       (Lvl = 2 \/ p = "good" \/ a \in AddrCore) /\ ReqJ(a, m, NextM(m), p, "exact")
+                 \/ \E a \in AddrCore, sh \in JShapes \ {"exact"}, m \in TargX, p \in CredsS :
+                       ReqJ(a, m, NextM(m), p, sh)
+                 \/ \E a \in Addrs, m \in GMethods : ReqG(a, m, "plain")
+                 \/ \E a \in AddrCore, m \in GTargX, sh \in GShapes \ {"plain"} : ReqG(a, m, sh)
+                 \/ \E a \in Addrs, sh \in (IF Lvl = 1 THEN {"post", "ws"} ELSE EShapes) : ReqE(a, sh)
+                 \/ \E a \in AddrCore, sh \in EShapes : ReqE(a, sh)
+
+Next == IF Mode = "mc" THEN NextMC ELSE IF Mode = "all" THEN NextAll ELSE NextSim
 Spec == Init /\ [][Next]_vars
 
 -----------------------------------------------------------------------------
@@ -238,8 +282,12 @@ TypeOK == /\ ncfg \in 0..MaxCfgs /\ ncfg = 0 <=> cur = NoCfg
 \* (the statement) and, with the union reading, after several InitCfg in one process.
 MechSoundJ == ncfg > 0 => \A a \in Addrs, m \in Methods, p \in Creds \ {"goodalt"} :
                  MechJ(a, m, p) => MayRun("jrpc", a, m, p, applied)
-MechSoundG == ncfg > 0 => \A a \in Addrs, m \in GMethods :
+MechSoundG == ncfg > 0 => \A a \in Addrs, m \in Methods :
                  MechG(a, m) => MayRun("grpc", a, m, "none", applied)
+\* the same for the server-streaming method (violated by the mechanism while StreamGated = FALSE:
+\* NewGRpcServer installs a unary interceptor only - candidate, reproduced on the real code)
+MechSoundStream == ncfg > 0 => \A a \in Addrs :
+                 MechG(a, "Watch") => MayRun("grpc", a, "Watch", "none", applied)
 \* Second sentence of the property (one configuration per process, non-empty whitelist).
 EthSame == (ncfg = 1 /\ IPConf(cur) # {}) => \A a \in Addrs : MechEth(a) <=> MechIp(a)
 EthSound == (ncfg = 1 /\ IPConf(cur) # {}) => \A a \in Addrs : MechEth(a) => EthMay(a, applied)
